@@ -19,6 +19,7 @@ package main
 //       later message of the same stream was acked in the last incarnation although it never was.
 
 import (
+	"context"
 	"fmt"
 	"os"
 	"sort"
@@ -34,7 +35,7 @@ import (
 )
 
 type c05Fault struct {
-	Kind  string `json:"kind"` // none | kill-at-ack | kill-before-put | kill-after-put | nack | put-fail | pause-resume | skew-kill
+	Kind  string `json:"kind"` // none | kill-at-ack | kill-before-put | kill-after-put | nack | nack-pack | put-fail | pause-resume | skew-kill
 	N     int    `json:"n"`
 	Round int    `json:"round,omitempty"`
 }
@@ -72,9 +73,19 @@ func genC05Input(seed int64, idx int) *scenario {
 		sc.Steps = append(sc.Steps, step{Op: "create_coll", Coll: ci})
 	}
 	rounds := 6 + rnd.Intn(6)
+	dropped := map[int]bool{}
 	for r := 0; r < rounds; r++ {
 		sc.Steps = append(sc.Steps, step{Op: "round", N: r})
+		if variant == 1 && r == rounds-3 {
+			// the second collection is dropped upstream while the first goes on: once the drop has been replayed its
+			// checkpoints are frozen; a marker collection created behind it passes the same event loop
+			sc.Steps = append(sc.Steps, step{Op: "drop_coll", Coll: 1}, step{Op: "marker_coll"})
+			dropped[1] = true
+		}
 		for ci, cd := range sc.Colls {
+			if dropped[ci] {
+				continue
+			}
 			for si := range cd.PChannels {
 				switch q := rnd.Intn(10); {
 				case q < 6:
@@ -99,7 +110,9 @@ type c05Result struct {
 	vios         []vio
 	inconclusive string
 	acks, puts   int
+	dataAcks     int // acknowledged calls that carried at least one row message
 	faultHit     bool
+	frozenJudged int
 	restarts     int
 	replay       map[string]any
 }
@@ -145,10 +158,49 @@ func runC05Case(c *c05Case, name string) *c05Result {
 	// ---- fault wiring ----
 	var fmu sync.Mutex
 	repN, putN := 0, 0
+	seenPack := map[int64]bool{}
+	var nackUID int64 = -1
+	nackCnt := 0
 	hold := fakemilvus.NewHold()
 	killedByPlan := make(chan struct{}, 1)
 	tgt.SetHook(func(call *fakemilvus.Call) *fakemilvus.Decision {
+		if call.Method == "DropCollection" || call.Method == "CreateCollection" {
+			s.log(sevt{Kind: "note", Note: "downstream " + call.Method + " " + fmt.Sprint(call.Req)})
+		}
 		if call.Method != "ReplicateMessage" {
+			return nil
+		}
+		if f.Kind == "nack-pack" && call.Replicate != nil {
+			// the N-th distinct pack that carries rows is rejected on every attempt the service makes for it (three,
+			// the retry budget of the rig's configuration); every other pack - also the next one of the same batch - is
+			// accepted
+			var first int64 = -1
+			for _, m := range call.Replicate.Msgs {
+				if m != nil {
+					if u := uidOf(m); u >= 0 {
+						first = u
+						break
+					}
+				}
+			}
+			if first >= 0 {
+				fmu.Lock()
+				if !seenPack[first] {
+					seenPack[first] = true
+					if len(seenPack) == f.N {
+						nackUID = first
+					}
+				}
+				reject := nackUID == first && nackCnt < 3
+				if reject {
+					nackCnt++
+				}
+				fmu.Unlock()
+				if reject {
+					res.faultHit = true
+					return fakemilvus.FailGRPC(codes.Internal, "injected downstream rejection of one pack")
+				}
+			}
 			return nil
 		}
 		fmu.Lock()
@@ -222,6 +274,20 @@ func runC05Case(c *c05Case, name string) *c05Result {
 		return true
 	}
 	// ---- execute ----
+	droppedColl := map[int]bool{}
+	markerSent := false
+	wantUIDs := func() []int64 {
+		// rows of a collection dropped upstream are not owed to the downstream any more
+		rs.mu.Lock()
+		defer rs.mu.Unlock()
+		var out []int64
+		for _, d := range rs.sent {
+			if (d.Kind == "insert" || d.Kind == "delete") && !droppedColl[d.Coll] {
+				out = append(out, d.UID)
+			}
+		}
+		return out
+	}
 	rs.startPump(25 * time.Millisecond)
 	defer rs.stopPump()
 	skewTopic := ""
@@ -244,6 +310,32 @@ func runC05Case(c *c05Case, name string) *c05Result {
 			if _, err := rs.send(st.Op, st.Coll, st.Shard, 0, st.Rows); err != nil {
 				res.inconclusive = "send: " + err.Error()
 				return res
+			}
+		case "drop_coll":
+			if c := rs.colls[st.Coll]; c != nil {
+				for si := range c.Shards {
+					_, _ = rs.send("dropcoll", st.Coll, si, 0, 0)
+				}
+				_ = s.w.Src.DropCollectionMeta(context.Background(), c)
+				droppedColl[st.Coll] = true
+				s.log(sevt{Kind: "note", Note: fmt.Sprintf("collection %d (%s) dropped upstream", c.ID, c.Name)})
+			}
+		case "marker_coll":
+			// created only once the drop request has arrived downstream (the drop travels through the data streams, a
+			// create through the catalog watch: created earlier, the marker would overtake it); its own create request
+			// then passes the event loop behind the handling of the drop
+			seen := false
+			for deadline := time.Now().Add(20 * time.Second); time.Now().Before(deadline) && !seen && s.childAlive(); time.Sleep(20 * time.Millisecond) {
+				for _, e := range s.events() {
+					if e.Kind == "note" && strings.HasPrefix(e.Note, "downstream DropCollection") {
+						seen = true
+					}
+				}
+			}
+			if seen {
+				if _, err := s.w.Src.CreateCollection(context.Background(), "default", "c05_marker", []string{rs.pch[0]}); err == nil {
+					markerSent = true
+				}
 			}
 		case "tick":
 			_, _ = s.w.Src.TickAll(rs.pch)
@@ -294,7 +386,7 @@ func runC05Case(c *c05Case, name string) *c05Result {
 		// (the verdict on it is final and does not wait for a watchdog)
 		var sentinels []int64
 		for ci, c := range rs.colls {
-			if c == nil {
+			if c == nil || droppedColl[ci] {
 				continue
 			}
 			for si := range c.Shards {
@@ -304,7 +396,7 @@ func runC05Case(c *c05Case, name string) *c05Result {
 			}
 		}
 		s.log(sevt{Kind: "note", Note: fmt.Sprintf("sentinels %v", sentinels)})
-		missing = c05WaitAcked(rs, rs.allDataUIDs(), sentinels, 25*time.Second)
+		missing = c05WaitAcked(rs, wantUIDs(), sentinels, 25*time.Second)
 		if len(missing) == 0 {
 			break
 		}
@@ -323,6 +415,15 @@ func runC05Case(c *c05Case, name string) *c05Result {
 	}
 	rs.stopPump()
 	c05Oracle(rs, res, missing)
+	c05Frozen(rs, res, droppedColl, markerSent)
+	if os.Getenv("C05_DEBUG") != "" {
+		for _, e := range s.events() {
+			if e.Kind == "note" || e.Kind == "api" || e.Kind == "kill" || e.Kind == "child-start" {
+				fmt.Printf("C05-DEBUG %s clock=%d kind=%s api=%s code=%d note=%s\n", name, e.Clock, e.Kind, e.API, e.Code, e.Note)
+			}
+		}
+		fmt.Printf("C05-DEBUG %s dropped=%v marker=%v missing=%v inconclusive=%q\n", name, droppedColl, markerSent, missing, res.inconclusive)
+	}
 	res.replay = map[string]any{"case": c, "sent": rs.sent, "events": tailEvents(s.events(), 1500), "missing": missing, "child_log_tail": s.tailChildLog(1500)}
 	return res
 }
@@ -403,6 +504,12 @@ func c05Oracle(rs *runState, res *c05Result, missing []int64) {
 			res.acks++
 			for _, u := range e.UIDs {
 				if u >= 0 {
+					res.dataAcks++
+					break
+				}
+			}
+			for _, u := range e.UIDs {
+				if u >= 0 {
 					if _, ok := ackClock[u]; !ok {
 						ackClock[u] = e.Clock
 					}
@@ -430,6 +537,9 @@ func c05Oracle(rs *runState, res *c05Result, missing []int64) {
 			if e.Kind == "store" && e.Store.Kind == "task_position" && e.Store.Op == "put" && e.Store.Coll > 0 && e.Store.Phase == "after" && e.Store.Err == "" {
 				for ch := range e.Store.Positions {
 					have[fmt.Sprintf("%d/%s", e.Store.Coll, ch)] = true
+					// a collection with a checkpoint for SOME of its channels resumes the others from its start position
+					// (fix 3bb301f): the recorded finding is about collections without any checkpoint record
+					have[fmt.Sprintf("%d/*", e.Store.Coll)] = true
 				}
 			}
 			switch {
@@ -504,7 +614,7 @@ func c05Oracle(rs *runState, res *c05Result, missing []int64) {
 					when = fmt.Sprintf("first acked at clock %d", ac)
 				}
 				rp := lastPoint(e.Clock)
-				if a1 && rp != nil && !rp.have[fmt.Sprintf("%d/%s", e.Store.Coll, ch)] && d.SentAt < rp.ready {
+				if a1 && rp != nil && !rp.have[fmt.Sprintf("%d/*", e.Store.Coll)] && d.SentAt < rp.ready {
 					add("C05/crash-before-first-checkpoint-of-new-collection-resumes-from-latest", fmt.Sprintf("the readers restarted at clock %d (incarnation %d) found no checkpoint for collection %d channel %s (the previous ones went away before one was written): the stream was subscribed at the latest message and message uid=%d (source id %d, %s), written before the new reader was up, is %s while the checkpoint moved on to id %d at clock %d", rp.ready, e.Inc, e.Store.Coll, ch, d.UID, d.MsgID, d.Kind, when, pe.MsgID, e.Clock))
 				} else if a1 {
 					add("C05/checkpoint-ahead-of-acknowledged-writes", fmt.Sprintf("checkpoint Put announced at clock %d (incarnation %d) for collection %d channel %s position id %d lies beyond message uid=%d (source id %d, %s), %s", e.Clock, e.Inc, e.Store.Coll, ch, pe.MsgID, d.UID, d.MsgID, d.Kind, when))
@@ -600,8 +710,14 @@ func c05Oracle(rs *runState, res *c05Result, missing []int64) {
 			if c := rs.colls[d.Coll]; c != nil && !explained && d.SentAt < lastStart {
 				// no checkpoint of this stream had been written for certain when the readers went away
 				performed := false
-				for _, v := range resumedFrom[fmt.Sprintf("%d/%s", c.ID, d.PChan)] {
-					performed = performed || v.performed
+				for k, vs := range resumedFrom {
+					// any channel of the collection: a collection with a checkpoint for some of its channels resumes
+					// the others from its start position
+					if strings.HasPrefix(k, fmt.Sprintf("%d/", c.ID)) {
+						for _, v := range vs {
+							performed = performed || v.performed
+						}
+					}
 				}
 				if !performed {
 					lostNoCp = append(lostNoCp, desc)
@@ -638,16 +754,17 @@ func c05Oracle(rs *runState, res *c05Result, missing []int64) {
 
 func runC05(tier string) *vf.Run {
 	run := vf.NewRun("C05", tier, "fault_enumeration")
-	run.Rule = "input = 1-2 collections x 1-3 shards (variant 0: one stream per source pchannel; variant 1: two collections sharing a source pchannel; variant 2: batcher count 6 / 250 ms / MaxMsgSize 1 KB with small packs followed by an oversized pack of the same stream; all downstream shards on ONE downstream channel), 6-11 rounds of inserts/deletes (bursts inside one tick interval) + ticks, batcher count 1 or 3; a fault-free run of the input counts the acks K and checkpoint Puts P; then the same input is re-run with one fault at an enumerated step: SIGKILL with the k-th ReplicateMessage applied but its reply held, SIGKILL just before / after the n-th checkpoint Put, k-th ReplicateMessage rejected, n-th checkpoint Put failing, pause+resume, and a skewed variant (one stream read slowly through a consumer gate, then killed). Quick: a fixed subset of the steps of three inputs (one per variant); thorough: every k and n of nine inputs. Non-trivial = the fault was delivered at the intended step and the run ended with all rows acked or a verdict; distinct by (input, fault kind, step)."
+	run.Rule = "input = 1-2 collections x 1-3 shards (variant 0: one stream per source pchannel; variant 1: two collections sharing a source pchannel; variant 2: batcher count 6 / 250 ms / MaxMsgSize 1 KB with small packs followed by an oversized pack of the same stream; all downstream shards on ONE downstream channel; in variant 1 the second collection is dropped upstream three rounds before the end and a marker collection is created behind the drop), 6-11 rounds of inserts/deletes (bursts inside one tick interval) + ticks, batcher count 1 or 3; a fault-free run of the input counts the acks K and checkpoint Puts P; then the same input is re-run with one fault at an enumerated step: SIGKILL with the k-th ReplicateMessage applied but its reply held, SIGKILL just before / after the n-th checkpoint Put, k-th ReplicateMessage rejected once (absorbed by the service's retry) or the n-th pack that carries rows rejected on every attempt while the next pack of its batch is accepted, n-th checkpoint Put failing, pause+resume, and a skewed variant (one stream read slowly through a consumer gate, then killed). Quick: a fixed subset of the steps of three inputs (one per variant); thorough: every k and n of nine inputs. Non-trivial = the fault was delivered at the intended step and the run ended with all rows acked or a verdict; distinct by (input, fault kind, step)."
 	run.Assumptions = []string{
 		"the fake downstream acks a ReplicateMessage when it ACCEPTS it (logged before replying); the child announces every store call to the supervisor BEFORE performing it, so 'checkpoint after ack' is judged on one clock without observation lag",
 		"message ids are unique over all topics (memq allocates them from one counter), so a checkpoint position identifies its stream's messages",
+		"frozen clause: judged in runs without a process death once the DropCollection of the dropped collection and the CreateCollection of the marker created behind it have both been seen downstream (one event loop handles them in that order): by then every checkpoint entry of the dropped collection must have been persisted as dropped; rows of a collection dropped upstream are not owed to the downstream any more",
 		"liveness is restated as bounded progress: after the fault the supervisor restarts a dead child, resumes paused tasks and keeps ticking; a row counts as LOST only when a later row of the same stream was acked in the last incarnation; otherwise the case is inconclusive",
 	}
 	nInputs := run.Pick(3, 9)
 	var cases []*c05Case
 	// baseline runs first (sequentially cheap): they size the enumeration
-	type base struct{ acks, puts int }
+	type base struct{ acks, puts, dataAcks int }
 	bases := make([]base, nInputs)
 	var bmu sync.Mutex
 	parallel(nInputs, 9, func(i int) {
@@ -661,10 +778,11 @@ func runC05(tier string) *vf.Run {
 			run.Violate(v.key, fmt.Sprintf("[input %d, no fault] %s", i, v.desc), r.replay)
 		}
 		bmu.Lock()
-		bases[i] = base{r.acks, r.puts}
+		bases[i] = base{r.acks, r.puts, r.dataAcks}
 		bmu.Unlock()
 		run.Count("baseline_acks", r.acks)
 		run.Count("baseline_checkpoint_puts", r.puts)
+		run.Count("replayed_drops_judged_for_frozen_checkpoints", r.frozenJudged)
 		if i == 0 {
 			run.Sample(map[string]any{"input": 0, "scenario": sc, "acks": r.acks, "checkpoint_puts": r.puts})
 		}
@@ -693,15 +811,25 @@ func runC05(tier string) *vf.Run {
 		if !run.Thorough() {
 			nacks, pfails, skews = []int{K / 2}, []int{[]int{1, P / 2, P - 1}[i%3]}, []int{K / 2}
 			if sc.PackCnt > 1 {
-				// a batch of several packs: three consecutive calls, so that at least one rejected call is followed by
-				// a call of the same batch (a rejection in the middle of a batch differs from one at its end)
-				nacks = []int{K / 2, K/2 + 1, K/2 + 2}
+				// a batch of several packs: three consecutive packs that carry rows, each rejected on every attempt while
+				// the next pack of the batch is accepted (a rejection in the middle of a batch differs from one at its end)
+				D := bases[i].dataAcks
+				for _, n := range []int{D / 2, D/2 + 1, D/2 + 2} {
+					if n >= 1 && n <= D {
+						cases = append(cases, &c05Case{Input: i, Sc: sc, Fault: c05Fault{Kind: "nack-pack", N: n}})
+					}
+				}
 			}
 			if len(sc.Colls[0].PChannels) > 1 {
 				// the start positions of a multi-shard collection created while the service runs are written one by
 				// one: a failure / a crash between the first and the second leaves a partial set of checkpoints
 				pfails = append(pfails, 2)
 				cases = append(cases, &c05Case{Input: i, Sc: sc, Fault: c05Fault{Kind: "kill-before-put", N: 2}})
+			}
+		}
+		if run.Thorough() && sc.PackCnt > 1 {
+			for n := 1; n <= bases[i].dataAcks; n++ {
+				cases = append(cases, &c05Case{Input: i, Sc: sc, Fault: c05Fault{Kind: "nack-pack", N: n}})
 			}
 		}
 		for _, k := range nacks {
@@ -758,6 +886,7 @@ func runC05(tier string) *vf.Run {
 		run.Count("child_restarts", r.restarts)
 		run.Count("acks_observed", r.acks)
 		run.Count("checkpoint_puts_observed", r.puts)
+		run.Count("replayed_drops_judged_for_frozen_checkpoints", r.frozenJudged)
 	})
 	run.Extra("enumerated_fault_cases", len(cases))
 	run.Floor("faults_delivered_at_intended_step", len(cases)*6/10)
@@ -766,5 +895,65 @@ func runC05(tier string) *vf.Run {
 	run.Floor("delivered_kill-after-put", 2)
 	run.Floor("delivered_nack", 1)
 	run.Floor("delivered_put-fail", 1)
+	run.Floor("replayed_drops_judged_for_frozen_checkpoints", 1)
 	return run
+}
+
+// c05Frozen: "checkpoints of a collection whose drop has been replayed are frozen". For a collection dropped
+// upstream in a run whose process was never killed: once the DropCollection call for it AND the CreateCollection of
+// the marker collection (created upstream behind the drop; both pass the one event loop in that order) have been
+// seen downstream, the handling of the drop request is over, so the collection's checkpoint entries must have been
+// persisted as dropped by then; and from the first performed dropped entry on no Put may change an entry (that
+// part is clause (b) of c05Oracle).
+func c05Frozen(rs *runState, res *c05Result, droppedColl map[int]bool, markerSent bool) {
+	if len(droppedColl) == 0 || !markerSent {
+		return
+	}
+	evs := rs.s.events()
+	for _, e := range evs {
+		if e.Kind == "kill" || e.Kind == "child-exit" {
+			return // a restarted service learns about the drop in another way (C04)
+		}
+	}
+	for ci := range droppedColl {
+		c := rs.colls[ci]
+		if c == nil {
+			continue
+		}
+		var dropAt, markerAt int64
+		for _, e := range evs {
+			if e.Kind != "note" {
+				continue
+			}
+			if dropAt == 0 && strings.HasPrefix(e.Note, "downstream DropCollection") && strings.Contains(e.Note, c.Name) {
+				dropAt = e.Clock
+			}
+			if dropAt != 0 && markerAt == 0 && strings.HasPrefix(e.Note, "downstream CreateCollection") && strings.Contains(e.Note, "c05_marker") {
+				markerAt = e.Clock
+			}
+		}
+		if dropAt == 0 || markerAt == 0 {
+			continue // the drop was not replayed in this run (task paused by the fault ...): nothing to judge
+		}
+		res.frozenJudged++
+		frozen := map[string]bool{}
+		seen := map[string]bool{}
+		for _, e := range evs {
+			if e.Kind != "store" || e.Store.Kind != "task_position" || e.Store.Op != "put" || e.Store.Coll != c.ID || e.Clock > markerAt {
+				continue
+			}
+			for ch, pe := range e.Store.Positions {
+				seen[ch] = true
+				if e.Store.Phase == "after" && e.Store.Err == "" && pe.Dropped {
+					frozen[ch] = true
+				}
+			}
+		}
+		for ch := range seen {
+			if !frozen[ch] {
+				res.vios = append(res.vios, vio{"C05/checkpoint-of-replayed-drop-not-frozen", fmt.Sprintf("collection %d (%s) was dropped upstream, its DropCollection was replayed downstream at clock %d and the marker collection created behind it at clock %d, yet no Put up to then persisted the entry of channel %s as dropped: the checkpoint of the dropped collection can still move", c.ID, c.Name, dropAt, markerAt, ch)})
+				break
+			}
+		}
+	}
 }
